@@ -196,6 +196,24 @@ theorem minify_source {d : DFA σ α} (wf : d.WF) (ps : d.PyShape) :
 theorem minify_eq (d : DFA σ α) (pick : List Nat → Nat) :
     d.minify pick = minifyCore d.minifyKept d.syms d.trans d.init d.minifyFinals pick := rfl
 
+/-- The pre-pass of a complete DFA needs no trap. -/
+theorem minify_noTrap_of_complete {d : DFA σ α} (wf : d.WF) (hc : d.allowPartial = false) :
+    needTrap d.minifyKept d.syms d.trans = false := by
+  rw [needTrap_eq_false_iff]
+  intro q hq a ha
+  obtain ⟨t, ht⟩ := step?_complete wf hc (minifyKept_sub_states wf hq) ha
+  have ht' : alookup a ((alookup q d.trans).getD []) = some t := ht
+  have hk : t ∈ d.minifyKept :=
+    (mem_minifyKept_iff wf).mpr
+      (Or.inr ⟨Reach.tail (minifyKept_reach wf hq) (step?_succ d ht), Or.inl hc⟩)
+  exact ⟨t, by simp [mdelta, ht', hk]⟩
+
+/-- `minify` never returns more states than the DFA declares. -/
+theorem minify_size_le {d : DFA σ α} (wf : d.WF) (ps : d.PyShape) (pick : List Nat → Nat) :
+    (d.minify pick).states.length ≤ d.states.length :=
+  Nat.le_trans ((minify_source wf ps).size_le pick)
+    (List.Nodup.length_le_of_subset (nodup_minifyKept wf) fun _ h => minifyKept_sub_states wf h)
+
 /-- A valid Python-shaped DFA all of whose states are reachable, handed to `_minify` with
 `kept = states` (what `_expand_dfa(..., minify=True)` does). -/
 theorem minSource_of_trim {d : DFA σ α} (wf : d.WF) (ps : d.PyShape)
